@@ -48,6 +48,10 @@ enum Op { Add(DocSpec), Del(u64), Commit, Merge(Vec<usize>) }
 
 struct Fields { id: Field, key: Field, tag: Field, body: Field }
 
+/// the extremes batch uses nanosecond precision for the date sort field (so that i64::MAX and i64::MAX-1 ns are
+/// distinct stored values); the other batches keep the default (seconds) with values on the grid
+static FINE_DATES: std::sync::atomic::AtomicBool = std::sync::atomic::AtomicBool::new(false);
+
 fn schema_for(kt: KT) -> (Schema, Fields) {
     let mut sb = Schema::builder();
     let id = sb.add_u64_field("id", FAST | INDEXED | STORED);
@@ -55,7 +59,9 @@ fn schema_for(kt: KT) -> (Schema, Fields) {
         KT::U64 => sb.add_u64_field("key", FAST),
         KT::I64 => sb.add_i64_field("key", FAST | STORED),
         KT::F64 => sb.add_f64_field("key", FAST),
-        KT::Date => sb.add_date_field("key", FAST | INDEXED),
+        KT::Date => if FINE_DATES.load(std::sync::atomic::Ordering::Relaxed) {
+            sb.add_date_field("key", tantivy::schema::DateOptions::default().set_fast().set_indexed().set_precision(tantivy::schema::DateTimePrecision::Nanoseconds))
+        } else { sb.add_date_field("key", FAST | INDEXED) },
         KT::Str => sb.add_text_field("key", STRING | FAST),
         KT::Bytes => sb.add_bytes_field("key", FAST),
     };
@@ -318,6 +324,60 @@ fn run_history(kt: KT, sort: Option<bool>, ops: &[Op]) -> Result<Run, String> {
     Ok(Run { obs, opstamps, problems, merges, f171, f171_class_merge })
 }
 
+/// both ends of every key type, with neighbours (every pair of adjacent extremes must stay distinguishable by the sort key)
+fn boundary_pool(kt: KT) -> Vec<KV> {
+    match kt {
+        KT::U64 => [0u64, 1, 2, u64::MAX - 2, u64::MAX - 1, u64::MAX, (1 << 63) - 1, 1 << 63].iter().map(|x| KV::Num(*x)).collect(),
+        KT::I64 | KT::Date => [i64::MIN, i64::MIN + 1, i64::MIN + 2, -1, 0, 1, i64::MAX - 2, i64::MAX - 1, i64::MAX].iter().map(|x| KV::Num(*x as u64)).collect(),
+        KT::F64 => {
+            let prev = |x: f64| f64::from_bits(x.to_bits() - 1);
+            [f64::NEG_INFINITY, f64::MIN, -prev(f64::MAX), -f64::MIN_POSITIVE, -1.0e-323, -5e-324, 0.0, 5e-324, 1.0e-323, f64::MIN_POSITIVE, prev(f64::MAX), f64::MAX, f64::INFINITY]
+                .iter().map(|x| KV::Num(x.to_bits())).collect()
+        }
+        KT::Str => ["", "\u{0}", "\u{0}\u{0}", "\u{1}", "a", "\u{10ffff}", "\u{10ffff}\u{10ffff}", "\u{10fffe}"].iter().map(|x: &&str| KV::Bin(str::as_bytes(x).to_vec())).collect(),
+        KT::Bytes => { let pool: [&[u8]; 8] = [b"", b"\x00", b"\x00\x00", b"\x01", b"\xfe\xff", b"\xff", b"\xff\xfe", b"\xff\xff"]; pool.iter().map(|x| KV::Bin(x.to_vec())).collect() }
+    }
+}
+
+/// Fresh segments (and a merge of two) made only of boundary values in chosen / random insertion orders.
+fn gen_extreme_history(rng: &mut Rng, kt: KT, variant: u64) -> Vec<Op> {
+    let pool = boundary_pool(kt);
+    let n = pool.len();
+    let mut ops = vec![];
+    let mut next_id = 0u64;
+    let mut add = |ops: &mut Vec<Op>, keys: Vec<KV>, tag: u64| { ops.push(Op::Add(DocSpec { id: next_id, keys, tag })); next_id += 1; };
+    match variant {
+        // the two largest and the two smallest values, in both insertion orders, with a middle value and a missing one
+        0 => { for k in [n - 2, n - 1, n / 2] { add(&mut ops, vec![pool[k].clone()], 0); } add(&mut ops, vec![], 0); add(&mut ops, vec![pool[1].clone()], 1); add(&mut ops, vec![pool[0].clone()], 1); ops.push(Op::Commit); }
+        1 => { for k in [n - 1, n - 2, n / 2] { add(&mut ops, vec![pool[k].clone()], 0); } add(&mut ops, vec![], 0); add(&mut ops, vec![pool[0].clone()], 1); add(&mut ops, vec![pool[1].clone()], 1); ops.push(Op::Commit); }
+        // the whole pool, ascending / descending / shuffled insertion order, duplicates of the extremes
+        2 | 3 | 4 => {
+            let mut idx: Vec<usize> = (0..n).chain([0, n - 1, n - 2, 1]).collect();
+            if variant == 3 { idx.reverse(); }
+            if variant == 4 { rng.shuffle(&mut idx); }
+            for (j, k) in idx.iter().enumerate() {
+                add(&mut ops, vec![pool[*k].clone()], (j % 2) as u64);
+                if j == n / 2 { add(&mut ops, vec![], 0); ops.push(Op::Del(1)); }
+            }
+            ops.push(Op::Commit);
+        }
+        // random draws, two segments, merged
+        _ => {
+            for c in 0..2 {
+                for _ in 0..rng.range(2, 9) {
+                    let keys = if rng.chance(1, 7) { vec![] } else { vec![pool[rng.below(n as u64) as usize].clone()] };
+                    add(&mut ops, keys, rng.below(2));
+                    if rng.chance(1, 8) { ops.push(Op::Del(rng.below(2))); }
+                }
+                ops.push(Op::Commit);
+                let _ = c;
+            }
+            ops.push(Op::Merge(vec![usize::MAX]));
+        }
+    }
+    ops
+}
+
 /// Random history.  Merges are issued only right after a commit (no uncommitted operations in flight).
 fn gen_history(rng: &mut Rng, kt: KT, thorough: bool, style: u64, multi: bool) -> Vec<Op> {
     let mut ops = vec![];
@@ -455,7 +515,7 @@ fn main() {
     let kts = [KT::U64, KT::I64, KT::F64, KT::Date, KT::Str, KT::Bytes];
 
     // ---------------- (i) histories under every sort configuration; (ii) the same with multi-valued documents ----------------
-    let per_cfg = if thorough { 60 } else { 14 };
+    let per_cfg = if thorough { 60 } else { 11 };
     for multi in [false, true] {
         for kt in kts {
             for sort in [Some(false), Some(true), None] {
@@ -469,6 +529,20 @@ fn main() {
             }
         }
     }
+
+    // ---------------- (iii) boundary values of every key type inside one fresh segment, both insertion orders ----------------
+    FINE_DATES.store(true, std::sync::atomic::Ordering::Relaxed);
+    for kt in kts {
+        for sort in [Some(false), Some(true)] {
+            for variant in 0..(if thorough { 16 } else { 8 }) {
+                let mut ops = gen_extreme_history(&mut rng, kt, variant);
+                resolve_merges(&mut rng, &mut ops);
+                run_and_emit(&mut out, kt, sort, ops, false, "extremes");
+                out.count("extreme_histories", 1);
+            }
+        }
+    }
+    FINE_DATES.store(false, std::sync::atomic::Ordering::Relaxed);
 
     // ---------------- corpus: the F171 witness (findings/C17-multivalued-null-stack.md) ----------------
     for desc in [false, true] {
